@@ -148,25 +148,22 @@ theorem hidden_by_later_binding (g : Graph) (b : BId) (n k : NodeId) (hreg : (g.
     (hk : k ∈ blockedOf g [b]) (hsep : ∀ m, m ∈ finishNodes g [b] → ¬ ClearPath g [k] n m) : ¬ Expl g n [b] :=
   later_binding_hides g b n k hreg hk hsep
 
-/-- **Rebinding keeps them visible** — in any graph: once `b` has an origin at `k` whose source is a copy `c` that has
-its own origin at `k` with source `b` (what `rebind_instance_type_parameter` creates), `b` is visible at `k` and from
-every node that reaches `k` by a backward path on which the variable is not bound again — whatever else is merged into
-the variable at `k`. -/
-theorem rebound_stays_visible (g : Graph) (b c : BId) (n k : NodeId) (ob oc : Origin)
+/-- **Rebinding keeps them visible** — in any graph: once `b` has an origin at `k` whose source set is `{b}` itself
+(what `rebind_instance_type_parameter` = `PasteVariable(AssignToNewVariable(k), k)` creates: the copy's only origin is
+at `k`, so `PasteBinding` copies it verbatim), `b` is visible at `k` and from every node that reaches `k` by a backward
+path on which the variable is not bound again — whatever else is merged into the variable at `k`. -/
+theorem rebound_stays_visible (g : Graph) (b : BId) (n k : NodeId) (ob : Origin)
     (hregk : (g.node k).bindings.contains b = true)
-    (hb : g.findOrigin b k = some ob) (hbs : [c] ∈ ob.sourceSets)
-    (hc : g.findOrigin c k = some oc) (hcs : [b] ∈ oc.sourceSets) (hne : c ≠ b)
-    (hnc : NoConflict g (sinsert c [b])) :
+    (hb : g.findOrigin b k = some ob) (hbs : [b] ∈ ob.sourceSets) :
     Expl g k [b] ∧
     ((g.node n).bindings.contains b = false → k ∈ finishNodes g [b] → ClearPath g (blockedOf g [b]) n k → Expl g n [b]) :=
-  ⟨rebound_visible_here g b c k ob oc hregk hb hbs hc hcs hne hnc,
-   fun hreg hk hp => rebound_visible_later g b n k hreg hk hp
-     (rebound_visible_here g b c k ob oc hregk hb hbs hc hcs hne hnc)⟩
+  ⟨rebound_visible_here g b k ob hregk hb hbs,
+   fun hreg hk hp => rebound_visible_later g b n k hreg hk hp (rebound_visible_here g b k ob hregk hb hbs)⟩
 
-/-- non-vacuity: the graph of `accRebindThenMerge` meets the hypotheses (b = 0, its copy c = 2, k = 1, n = 2) … -/
+/-- non-vacuity: the graph of `accRebindThenMerge` meets the hypotheses (b = 0, k = 1, n = 2) … -/
 example : let g := ((PState.init []).run accRebindThenMerge).g
-    (g.node 1).bindings.contains 0 = true ∧ (g.findOrigin 0 1).isSome ∧ (g.findOrigin 2 1).isSome ∧
-    (g.node 2).bindings.contains 0 = false ∧ 1 ∈ finishNodes g [0] ∧ goalsConflict g (sinsert 2 [0]) = false := by
+    (g.node 1).bindings.contains 0 = true ∧ g.findOrigin 0 1 = some ⟨1, [[0]]⟩ ∧
+    (g.node 2).bindings.contains 0 = false ∧ 1 ∈ finishNodes g [0] := by
   decide
 /-- … and the graph of `accMergeOnly` those of `hidden_by_later_binding` (b = 0, n = 2, k = 1; the only origin node
 of `b` is 0 and the only way back from 2 leads through 1) -/
